@@ -2,6 +2,8 @@
 use crate::drive::*;
 use crate::sim::*;
 use serde_json::{json, Value};
+use std::sync::atomic::{AtomicU64, Ordering};
+use std::sync::Arc;
 use std::time::Duration;
 use tower::{Layer, Service};
 use tower_resilience_cache::{Cache, CacheError, CacheLayer, EvictionPolicy, SharedCacheLayer};
@@ -34,21 +36,31 @@ impl Adapter for CacheAd {
             _ => EvictionPolicy::Fifo,
         };
         let inner = Inner::new(&sim.w);
+        let cnt: Arc<[AtomicU64; 3]> = Arc::new([AtomicU64::new(0), AtomicU64::new(0), AtomicU64::new(0)]);
+        let (h, m, e) = (cnt.clone(), cnt.clone(), cnt.clone());
+        let (h2, m2, e2) = (cnt.clone(), cnt.clone(), cnt.clone());
         if cfg["shared"].as_u64().unwrap() == 1 {
-            let mut b = SharedCacheLayer::<Req, u32, Resp>::builder().max_size(max).eviction_policy(pol).key_extractor(|r: &Req| r.key);
+            let mut b = SharedCacheLayer::<Req, u32, Resp>::builder().max_size(max).eviction_policy(pol).key_extractor(|r: &Req| r.key)
+                .on_hit(move || { h[0].fetch_add(1, Ordering::SeqCst); }).on_miss(move || { m[1].fetch_add(1, Ordering::SeqCst); }).on_eviction(move || { e[2].fetch_add(1, Ordering::SeqCst); });
             if ttl >= 0 {
                 b = b.ttl(Duration::from_millis(ttl as u64));
             }
             let layer = b.build();
             self.svcs = vec![layer.layer(inner.clone()), layer.layer(inner)];
         } else {
-            let mut b = CacheLayer::<Req, u32>::builder().max_size(max).eviction_policy(pol).key_extractor(|r: &Req| r.key);
+            let mut b = CacheLayer::<Req, u32>::builder().max_size(max).eviction_policy(pol).key_extractor(|r: &Req| r.key)
+                .on_hit(move || { h2[0].fetch_add(1, Ordering::SeqCst); }).on_miss(move || { m2[1].fetch_add(1, Ordering::SeqCst); }).on_eviction(move || { e2[2].fetch_add(1, Ordering::SeqCst); });
             if ttl >= 0 {
                 b = b.ttl(Duration::from_millis(ttl as u64));
             }
             let layer = b.build();
             self.svcs = vec![layer.layer(inner.clone()), layer.layer(inner)];
         }
+        sim.obs = Some(Box::new(move || {
+            let mut o = Obj::new();
+            o.insert("lis".into(), json!({"hit": cnt[0].load(Ordering::SeqCst), "miss": cnt[1].load(Ordering::SeqCst), "evict": cnt[2].load(Ordering::SeqCst)}));
+            o
+        }));
     }
     fn mk(&mut self, req: &Req) -> CallFut {
         // service of caller c: index c % 2 (the spec's store 1 + c % 2 when stores are private)
